@@ -32,6 +32,12 @@ def to_py(td_row):
 _ENV_CACHE = {}
 
 
+def ctor(cfg):
+    """Extra keyword arguments of the env constructor (options of RL4COEnvBase such as allow_done_after_reset,
+    run_type_checks, batch_size) carried by a config under the optional key "_ctor"; every Spec.build forwards them."""
+    return dict(cfg.get("_ctor") or {})
+
+
 def cached_env(name, cfg, builder):
     key = name + json.dumps(cfg, sort_keys=True)
     if key not in _ENV_CACHE:
@@ -116,7 +122,7 @@ class TSP(Spec):
 
     def build(self, cfg):
         from rl4co.envs import TSPEnv
-        return TSPEnv(generator_params=dict(num_loc=cfg["n"]))
+        return TSPEnv(generator_params=dict(num_loc=cfg["n"]), **ctor(cfg))
 
     def lattice(self, cfg, B, exact=True):
         return st.fixed_dictionaries({"locs": st.lists(coords(cfg["n"]), min_size=B, max_size=B)})
@@ -134,7 +140,7 @@ class ATSP(Spec):
 
     def build(self, cfg):
         from rl4co.envs import ATSPEnv
-        return ATSPEnv(generator_params=dict(num_loc=cfg["n"], tmat_class=cfg["tmat"]))
+        return ATSPEnv(generator_params=dict(num_loc=cfg["n"], tmat_class=cfg["tmat"]), **ctor(cfg))
 
     def lattice(self, cfg, B, exact=True):
         n = cfg["n"]
@@ -166,7 +172,7 @@ class CVRP(Spec):
 
     def build(self, cfg):
         import rl4co.envs as E
-        return getattr(E, self.envcls)(generator_params=self.gparams(cfg))
+        return getattr(E, self.envcls)(generator_params=self.gparams(cfg), **ctor(cfg))
 
     def lattice(self, cfg, B, exact=True):
         n = cfg["n"]
@@ -208,7 +214,8 @@ class CVRPTW(CVRP):
         return p
 
     def lattice(self, cfg, B, exact=True):
-        # integer grid 0..150 in steps of 10 (3-4-5 friendly), integer windows; unscaled only
+        # integer grid 0..150 in steps of 10 (3-4-5 friendly), integer windows (divided by the closing time in
+        # `instance` when the drawn config says scale=True)
         n = cfg["n"]
         mt = cfg["max_time"]
         pt = st.tuples(st.integers(0, 15), st.integers(0, 15)).map(lambda p: [p[0] * 10.0, p[1] * 10.0])
@@ -258,7 +265,10 @@ class CVRPTW(CVRP):
                 arr = t + math.hypot(q[0] - cur[0], q[1] - cur[1])
                 lo = float(max(0, math.floor(arr) + draw(st.integers(-30, 12))))
                 start = max(arr, lo)
-                hi = float(math.ceil(start) + draw(st.sampled_from([0, 0, 1, 2, 5])))
+                # scaled units (cfg scale=True, see `instance`): no exact-equality class - after the division by the closing
+                # time an arrival that equals the window end in integer units may round to either side, so the window
+                # closes at least one time unit after the reference arrival (equality stays in the unscaled instances)
+                hi = float(math.ceil(start) + draw(st.sampled_from([1, 1, 2, 5] if cfg.get("scale") else [0, 0, 1, 2, 5])))
                 if hi <= lo:
                     hi = lo + 1.0
                 dur = float(draw(st.integers(0, 25)))
@@ -271,15 +281,41 @@ class CVRPTW(CVRP):
         def pack(rows):
             # one depot closing time for the whole batch (the library assumes max_time is shared by a batch)
             mt = max(r[3][0][1] for r in rows)
+            tws = [[list(w) for w in r[3][1:]] for r in rows]
+            if cfg.get("scale"):
+                # solvable by construction in scaled units too: every customer can be reached straight from the depot
+                # with a margin of >= 1e-3 * closing time inside its own window and the vehicle is back in time
+                for _ in range(8):
+                    need = mt
+                    for r, tw in zip(rows, tws):
+                        for q, w, dur in zip(r[1], tw, r[4][1:]):
+                            d0 = math.hypot(q[0] - r[0][0], q[1] - r[0][1])
+                            w[1] = float(max(w[1], math.ceil(d0 + 1e-3 * mt)))
+                            need = max(need, math.ceil(w[1] + dur + d0) + 1.0)
+                    if need == mt:
+                        break
+                    mt = need
             return {"depot": [r[0] for r in rows], "locs": [r[1] for r in rows], "demand": [r[2] for r in rows],
-                    "time_windows": [[[0.0, mt]] + r[3][1:] for r in rows], "durations": [r[4] for r in rows]}
+                    "time_windows": [[[0.0, mt]] + tw for tw in tws], "durations": [r[4] for r in rows]}
         return st.lists(row(), min_size=B, max_size=B).map(pack)
 
     def instance(self, case):
         if case["src"] in ("lat", "flt", "tgt"):
-            cfg = dict(case["cfg"], scale=False)
-            return self.from_lattice(cfg, case["lat"])
+            td = self.from_lattice(case["cfg"], case["lat"])
+            if case["cfg"].get("scale"):
+                # hand-built instance in SCALED units, the format of CVRPTWGenerator(scale=True): coordinates, time windows
+                # and service durations divided by the depot's closing time (one per batch), so that everything lies in
+                # [0, 1].  Unlike the generator's scaled instances these have non-zero durations and windows met with
+                # near equality; no quantity is an exact float any more (no exact-equality class, see judge_cfg).
+                mt = td["time_windows"][:, 0, 1].max()
+                for k in ("depot", "locs", "time_windows", "durations"):
+                    td[k] = td[k] / mt
+            return td
         return super().instance(case)
+
+    def judge_cfg(self, cfg):
+        # scaled_units: the oracle must not certify "arrival == window end" as exact (vf.oracles.routing.judge_cvrptw)
+        return dict(super().judge_cfg(cfg), scaled_units=bool(cfg.get("scale")))
 
     def slice_of(self, cfg):
         return "scaled" if cfg.get("scale") else "unscaled"
@@ -294,7 +330,7 @@ class SVRP(Spec):
 
     def build(self, cfg):
         from rl4co.envs import SVRPEnv
-        return SVRPEnv(generator_params=dict(num_loc=cfg["n"], tech_costs=cfg["tech_costs"]))
+        return SVRPEnv(generator_params=dict(num_loc=cfg["n"], tech_costs=cfg["tech_costs"]), **ctor(cfg))
 
     def lattice(self, cfg, B, exact=True):
         n, T = cfg["n"], len(cfg["tech_costs"])
@@ -328,7 +364,7 @@ class OP(Spec):
         p = dict(num_loc=cfg["n"], prize_type=cfg["prize_type"])
         if cfg.get("max_length"):
             p["max_length"] = cfg["max_length"]
-        return OPEnv(generator_params=p)
+        return OPEnv(generator_params=p, **ctor(cfg))
 
     def lattice(self, cfg, B, exact=True):
         n = cfg["n"]
@@ -354,7 +390,7 @@ class PCTSP(Spec):
 
     def build(self, cfg):
         import rl4co.envs as E
-        return getattr(E, self.envcls)(generator_params=dict(num_loc=cfg["n"]))
+        return getattr(E, self.envcls)(generator_params=dict(num_loc=cfg["n"]), **ctor(cfg))
 
     def lattice(self, cfg, B, exact=True):
         n = cfg["n"]
@@ -392,7 +428,7 @@ class PDP(Spec):
 
     def build(self, cfg):
         from rl4co.envs import PDPEnv
-        return PDPEnv(generator_params=dict(num_loc=cfg["n"]), force_start_at_depot=cfg["force_start"])
+        return PDPEnv(generator_params=dict(num_loc=cfg["n"]), force_start_at_depot=cfg["force_start"], **ctor(cfg))
 
     def lattice(self, cfg, B, exact=True):
         return st.fixed_dictionaries({"locs": st.lists(coords(cfg["n"]), min_size=B, max_size=B),
@@ -426,7 +462,7 @@ class MTSP(Spec):
     def build(self, cfg):
         from rl4co.envs import MTSPEnv
         return MTSPEnv(generator_params=dict(num_loc=cfg["n"], min_num_agents=cfg["min_agents"],
-                                             max_num_agents=cfg["max_agents"]), cost_type=cfg["cost_type"])
+                                             max_num_agents=cfg["max_agents"]), cost_type=cfg["cost_type"], **ctor(cfg))
 
     def lattice(self, cfg, B, exact=True):
         return st.fixed_dictionaries({
@@ -476,7 +512,7 @@ class MTVRP(Spec):
                                               max_time=4.6 / min(sp, 1.0),
                                               scale_demand=cfg.get("scale_demand", True),
                                               backhaul_ratio=cfg.get("backhaul_ratio", 0.2),
-                                              distance_limit=cfg.get("distance_limit", 3.0)), check_solution=False)
+                                              distance_limit=cfg.get("distance_limit", 3.0)), check_solution=False, **ctor(cfg))
 
     def lattice(self, cfg, B, exact=True):
         """Hand-built instances in the documented reset format; features follow the preset letters."""
@@ -486,11 +522,22 @@ class MTVRP(Spec):
             st.just({"O": var.startswith("o"), "T": "tw" in var, "L": "l" in var.replace("ovrp", "").replace("vrp", ""),
                      "B": "b" in var.replace("ovrp", "").replace("vrp", "")})
 
+        # demand units: normalised (k/8 of a capacity-1 vehicle: the format of scale_demand=True) or, when the drawn
+        # config says scale_demand=False, the generator's RAW units: integer demands 1..9 and an integer vehicle
+        # capacity C != 1 per row (rows of one batch may carry different capacities - instance files can), both exact
+        # in float32
+        raw = not cfg.get("scale_demand", True)
+
         @st.composite
         def row(draw):
             f = draw(feats)
             locs = draw(coords(n + 1, 8))
-            dem = draw(eighths(n, exact=exact))
+            if raw:
+                dem = [float(draw(st.integers(1, 9))) if exact else draw(st.floats(0.5, 9.0, width=32)) for _ in range(n)]
+                cap = float(draw(st.integers(9, 24)))
+            else:
+                dem = draw(eighths(n, exact=exact))
+                cap = None
             isb = draw(st.lists(st.booleans(), min_size=n, max_size=n)) if f["B"] else [False] * n
             lh = [0.0] + [0.0 if b else d for d, b in zip(dem, isb)]
             bh = [0.0] + [d if b else 0.0 for d, b in zip(dem, isb)]
@@ -499,6 +546,7 @@ class MTVRP(Spec):
             if f["T"]:
                 tws, sts = [], [0.0]
                 mt = 8.0
+                alone = 0.0  # latest return to the depot over the single-customer routes depot -> j -> depot
                 for j in range(1, n + 1):
                     s = draw(st.integers(0, 2)) / 8.0
                     first = math.ceil(d0[j] / sp * 8) + 1
@@ -507,17 +555,27 @@ class MTVRP(Spec):
                     tws.append([lo, hi])
                     sts.append(s)
                     mt = max(mt, math.ceil(hi + s + d0[j] / sp) + 1.0)
+                    alone = max(alone, max(d0[j] / sp, lo) + s + d0[j] / sp)
+                if not f["O"] and draw(st.booleans()):
+                    # BINDING depot closing time (closed routes only; generator data never makes it bind): every customer
+                    # can still be served alone with the vehicle back 1-3 lattice units before the depot closes, so the
+                    # instance stays solvable, but most routes with two or more customers would return late - the
+                    # mask's "back at the depot in time" clause decides them (oracle: depot_deadline)
+                    mt = (math.ceil(alone * 8) + draw(st.integers(1, 2))) / 8.0
                 tws = [[0.0, mt]] + tws
             else:
                 tws, sts = [[0.0, 1e30]] * (n + 1), [0.0] * (n + 1)
             lim = max(draw(st.integers(16, 40)) / 8.0, 2 * max(d0) + 0.125) if f["L"] else 1e30
-            return locs, lh, bh, tws, sts, lim, f["O"]
+            return locs, lh, bh, tws, sts, lim, f["O"], cap
 
         def pack(rows):
-            return {"locs": [r[0] for r in rows], "demand_linehaul": [r[1] for r in rows],
-                    "demand_backhaul": [r[2] for r in rows], "time_windows": [r[3] for r in rows],
-                    "service_time": [r[4] for r in rows], "distance_limit": [[r[5]] for r in rows],
-                    "open_route": [[r[6]] for r in rows]}
+            out = {"locs": [r[0] for r in rows], "demand_linehaul": [r[1] for r in rows],
+                   "demand_backhaul": [r[2] for r in rows], "time_windows": [r[3] for r in rows],
+                   "service_time": [r[4] for r in rows], "distance_limit": [[r[5]] for r in rows],
+                   "open_route": [[r[6]] for r in rows]}
+            if raw:
+                out["vehicle_capacity"] = [[r[7]] for r in rows]
+            return out
         return st.lists(row(), min_size=B, max_size=B).map(pack)
 
     def from_lattice(self, cfg, lat):
@@ -532,7 +590,8 @@ class MTVRP(Spec):
             "demand_backhaul": t32(lat["demand_backhaul"]), "time_windows": tw,
             "service_time": t32(lat["service_time"]), "distance_limit": dl,
             "open_route": torch.tensor(lat["open_route"], dtype=torch.bool),
-            "vehicle_capacity": torch.ones(B, 1), "capacity_original": torch.full((B, 1), 8.0),
+            "vehicle_capacity": t32(lat["vehicle_capacity"]) if "vehicle_capacity" in lat else torch.ones(B, 1),
+            "capacity_original": t32(lat["vehicle_capacity"]) if "vehicle_capacity" in lat else torch.full((B, 1), 8.0),
             "speed": torch.full((B, 1), float(cfg.get("speed", 1.0))),
         }, batch_size=[B])
 
@@ -639,8 +698,15 @@ class FJSP(Spec):
             return {"jobs": jobs, "mas": mas, "min_ops": lo, "max_ops": hi,
                     "max_pt": draw(st.sampled_from([3, 6, 9, 20, 20, 2000, 6000])),
                     "max_elig": draw(st.integers(1, mas)), "same_mean": draw(st.booleans()),
-                    "mask_no_ops": draw(st.booleans())}
+                    "mask_no_ops": draw(st.booleans()), **draw(self.reward_opts())}
         return c()
+
+    @staticmethod
+    def reward_opts():
+        # constructor options of FJSPEnv / JSSPEnv: stepwise_reward=True (the env of every L2D-PPO run: each step's
+        # reward is the negative change of the largest lower bound) and check_mask=True (the step asserts that every
+        # row is left with an action)
+        return st.fixed_dictionaries({"stepwise": st.sampled_from([False, True, True]), "check_mask": st.booleans()})
 
     def build(self, cfg):
         from rl4co.envs import FJSPEnv
@@ -648,7 +714,8 @@ class FJSP(Spec):
             num_jobs=cfg["jobs"], num_machines=cfg["mas"], min_ops_per_job=cfg["min_ops"],
             max_ops_per_job=cfg["max_ops"], min_processing_time=1, max_processing_time=cfg["max_pt"],
             min_eligible_ma_per_op=1, max_eligible_ma_per_op=cfg["max_elig"], same_mean_per_op=cfg["same_mean"]),
-            mask_no_ops=cfg["mask_no_ops"])
+            mask_no_ops=cfg["mask_no_ops"], stepwise_reward=cfg.get("stepwise", False),
+            check_mask=cfg.get("check_mask", False), **ctor(cfg))
 
     one_machine_per_op = False
 
@@ -699,7 +766,7 @@ class FJSP(Spec):
         return 2 * nops + 1
 
     def slice_of(self, cfg):
-        return "mask_no_ops" if cfg["mask_no_ops"] else "wait_allowed"
+        return ("mask_no_ops" if cfg["mask_no_ops"] else "wait_allowed") + ("@stepwise" if cfg.get("stepwise") else "")
 
 
 class JSSP(FJSP):
@@ -720,7 +787,8 @@ class JSSP(FJSP):
                 lo = draw(st.integers(1, 3))
                 hi = draw(st.integers(lo, 4 if big else 3))
             return {"jobs": jobs, "mas": mas, "min_ops": lo, "max_ops": hi, "one2one": one2one,
-                    "max_pt": draw(st.sampled_from([3, 9, 99, 99, 2000, 6000])), "mask_no_ops": draw(st.booleans())}
+                    "max_pt": draw(st.sampled_from([3, 9, 99, 99, 2000, 6000])), "mask_no_ops": draw(st.booleans()),
+                    **draw(self.reward_opts())}
         return c()
 
     def build(self, cfg):
@@ -728,7 +796,8 @@ class JSSP(FJSP):
         return JSSPEnv(generator_params=dict(
             num_jobs=cfg["jobs"], num_machines=cfg["mas"], min_ops_per_job=cfg["min_ops"],
             max_ops_per_job=cfg["max_ops"], min_processing_time=1, max_processing_time=cfg["max_pt"],
-            one2one_ma_map=cfg["one2one"]), mask_no_ops=cfg["mask_no_ops"])
+            one2one_ma_map=cfg["one2one"]), mask_no_ops=cfg["mask_no_ops"],
+            stepwise_reward=cfg.get("stepwise", False), check_mask=cfg.get("check_mask", False), **ctor(cfg))
 
 
 class FFSP(Spec):
@@ -745,7 +814,7 @@ class FFSP(Spec):
         from rl4co.envs import FFSPEnv
         return FFSPEnv(generator_params=dict(num_stage=cfg["stages"], num_machine=cfg["mas"], num_job=cfg["jobs"],
                                              min_time=1, max_time=cfg["max_time"],
-                                             flatten_stages=cfg.get("flatten", True)))
+                                             flatten_stages=cfg.get("flatten", True)), **ctor(cfg))
 
     # NOTE: the env object is cached like all others: it is reused *sequentially* for many episodes with
     # different batch sizes (legitimate usage); it still serves only one episode at a time.
@@ -772,7 +841,7 @@ class SMTWTP(Spec):
 
     def build(self, cfg):
         from rl4co.envs import SMTWTPEnv
-        return SMTWTPEnv(generator_params=dict(num_job=cfg["n"]))
+        return SMTWTPEnv(generator_params=dict(num_job=cfg["n"]), **ctor(cfg))
 
     def lattice(self, cfg, B, exact=True):
         n = cfg["n"]
@@ -802,7 +871,7 @@ class FLP(Spec):
 
     def build(self, cfg):
         from rl4co.envs import FLPEnv
-        return FLPEnv(generator_params=dict(num_loc=cfg["n"], to_choose=cfg["k"]))
+        return FLPEnv(generator_params=dict(num_loc=cfg["n"], to_choose=cfg["k"]), **ctor(cfg))
 
     def lattice(self, cfg, B, exact=True):
         return st.fixed_dictionaries({"locs": st.lists(coords(cfg["n"]), min_size=B, max_size=B)})
@@ -840,7 +909,7 @@ class MCP(Spec):
     def build(self, cfg):
         from rl4co.envs import MCPEnv
         return MCPEnv(generator_params=dict(num_items=cfg["items"], num_sets=cfg["sets"], min_size=cfg["min_size"],
-                                            max_size=cfg["max_size"], n_sets_to_choose=cfg["k"]))
+                                            max_size=cfg["max_size"], n_sets_to_choose=cfg["k"]), **ctor(cfg))
 
     def lattice(self, cfg, B, exact=True):
         items, sets = cfg["items"], cfg["sets"]
@@ -887,6 +956,12 @@ class MDCPDP(Spec):
             "reward_mode": st.sampled_from(["minmax", "minsum", "lateness"]),
             "problem_mode": st.sampled_from(["close", "open"]), "depot_mode": st.sampled_from(["multiple", "single"]),
             "max_cap": st.integers(1, 3), "lw": st.sampled_from([1.0, 0.5, 0.0]),
+            # start_mode="random": reset draws td["current_depot"] from the global torch RNG (the episode drivers seed
+            # it from the instance, see vf.episode.seed_reset).  On the pinned tree the drawn depot lives in the reset
+            # state only: the reset mask offers depot 0 alone and the first step overwrites current_depot with the
+            # depot actually visited, so masks / states / rewards from the first step on do not depend on the draw
+            # (that is what C01-C04 compare; a step that trusts the reset value instead shows only under "random").
+            "start_mode": st.sampled_from(["order", "random"]),
         })
 
     def build(self, cfg):
@@ -895,7 +970,7 @@ class MDCPDP(Spec):
                                                min_capacity=1, max_capacity=cfg["max_cap"],
                                                min_lateness_weight=cfg["lw"], max_lateness_weight=cfg["lw"]),
                          dist_mode=cfg["dist_mode"], reward_mode=cfg["reward_mode"], problem_mode=cfg["problem_mode"],
-                         start_mode="order")
+                         start_mode=cfg.get("start_mode", "order"), **ctor(cfg))
 
     def lattice(self, cfg, B, exact=True):
         n, D = cfg["n"], cfg["depots"]
@@ -918,7 +993,8 @@ class MDCPDP(Spec):
         return cfg
 
     def slice_of(self, cfg):
-        return f"{cfg['problem_mode']}|{cfg['reward_mode']}|{'multi' if cfg['depots'] > 1 else 'single'}"
+        rs = "@random_start" if cfg.get("start_mode") == "random" else ""  # inside the reward slot: signature patterns
+        return f"{cfg['problem_mode']}|{cfg['reward_mode']}{rs}|{'multi' if cfg['depots'] > 1 else 'single'}"
 
 
 SPECS["mdcpdp"] = MDCPDP()
@@ -961,7 +1037,7 @@ class DPP(Spec):
 
     def build(self, cfg):
         from rl4co.envs import DPPEnv
-        return DPPEnv(generator_params=self.gparams(cfg))
+        return DPPEnv(generator_params=self.gparams(cfg), **ctor(cfg))
 
     def bound(self, cfg, r):
         return cfg["k"]
@@ -1010,7 +1086,7 @@ class MDPP(DPP):
 
     def build(self, cfg):
         from rl4co.envs import MDPPEnv
-        return MDPPEnv(generator_params=self.gparams(cfg), reward_type=cfg["reward_type"])
+        return MDPPEnv(generator_params=self.gparams(cfg), reward_type=cfg["reward_type"], **ctor(cfg))
 
 
 SPECS["dpp"] = DPP()
